@@ -196,7 +196,24 @@ def main():
             r, img, argv = packcheck.pack(spec_v1(), dict(comp=comp, bs=B, e=1), wd)
             if r.rc != 0:
                 raise RuntimeError("cannot build image: %s" % r.err[-300:])
-            images.append(("v1-gensquashfs-" + comp, open(img, "rb").read(), None))
+            vdata = open(img, "rb").read()
+            images.append(("v1-gensquashfs-" + comp, vdata, None))
+            # the same image with the payload of one compressed block damaged (a data block, an inode-table block, a fragment block): the
+            # decompressor - shared by all readers - fails on it; what the readers answer afterwards must not depend on that
+            vim = sqfsck.load(vdata)
+            blk_file = next((n for n in vim.tree.values() if n["type"] == "file" and any(b[1] > 20 and b[2] for b in n["layout"]["blocks"])), None)
+            targets = []
+            if blk_file is not None:
+                b0 = next(b for b in blk_file["layout"]["blocks"] if b[1] > 20 and b[2])
+                targets.append(("data-block", b0[0] + 6))
+            ipos = sorted(vim.meta_blocks.get("inode", ()))
+            if len(ipos) > 1:
+                targets.append(("second-inode-block", ipos[1] + 2 + 6))
+            for tname, off in targets:
+                d = bytearray(vdata)
+                for k_ in range(8):
+                    d[off + k_] ^= 0xA5
+                images.append(("g-%s-%s-corrupt" % (comp, tname), bytes(d), vdata))
         images.append(("v4-big-inode-table", big_inode_table_image(), None))
         dmg, valid3 = damaged_images(sd)
         for name, data in dmg:
